@@ -3,6 +3,8 @@ package internal
 import "math/rand"
 
 func subset(set []string, sub int) []string {
+	// shuffle a copy: set is shared with the other callers of Subscriber.Values() (its cached snapshot)
+	set = append([]string(nil), set...)
 	rand.Shuffle(len(set), func(i, j int) {
 		set[i], set[j] = set[j], set[i]
 	})
